@@ -74,7 +74,9 @@ def run(st, tier, seed):
     for i in range(n):
         b = progen.gen_component_bundle(rng, size=rng.choice([4, 8])) if rng.random() < 0.5 else \
             progen.gen_system_bundle(rng, depth=rng.randint(1, 3), size=4, n_templates=2)
-        hist = [progen.gen_component_bundle(rng, size=4) for _ in range(4)]
+        # earlier compiles: other projects with the SAME relative file names (top.comp, tmpl0.comp, lib/..., sys*.sys)
+        hist = [(progen.gen_system_bundle(rng, depth=rng.randint(1, 2), size=3, n_templates=2) if rng.random() < 0.5 else None)
+                or progen.gen_component_bundle(rng, size=4) for _ in range(4)]
         if b is None:
             continue
         with core.scratch("pepper_c18_") as root:
@@ -92,9 +94,12 @@ def run(st, tier, seed):
                     nh = rng.randint(0, 4)
                     job = {"entry": pj(b.entry), "includes": [pj(x) for x in b.includes], "fmt": fmt,
                            "out": pj("o%d.%s" % (c, fmt)), "save": pj("o%d.save" % c),
-                           "history": [{"entry": os.path.relpath(os.path.join(root, "hist%d" % k, "top"), cwd), "includes": [],
-                                        "out": os.path.relpath(os.path.join(root, "hist%d" % k, "o.pil"), cwd),
-                                        "save": os.path.relpath(os.path.join(root, "hist%d" % k, "o.save"), cwd)} for k in range(nh)]}
+                           "history": [({"cwd": os.path.join(root, "hist%d" % k), "entry": hist[k].entry, "includes": list(hist[k].includes),
+                                         "out": "o.pil", "save": "o.save"} if rng.random() < 0.6 else
+                                        {"entry": os.path.relpath(os.path.join(root, "hist%d" % k, hist[k].entry), cwd),
+                                         "includes": [os.path.relpath(os.path.join(root, "hist%d" % k, x), cwd) for x in hist[k].includes],
+                                         "out": os.path.relpath(os.path.join(root, "hist%d" % k, "o.pil"), cwd),
+                                         "save": os.path.relpath(os.path.join(root, "hist%d" % k, "o.save"), cwd)}) for k in range(nh)]}
                     hs = rng.choice(["0", "1", "12345", "random"])
                     env = dict(os.environ, PYTHONHASHSEED=hs, PYTHONPATH=core.REPO, PEPPER_REPO=core.REPO, PYTHONDONTWRITEBYTECODE="1")
                     p = subprocess.run([sys.executable, worker, json.dumps(job)], cwd=cwd, env=env, capture_output=True, text=True, timeout=300)
